@@ -171,6 +171,11 @@ impl PidTracking {
         ]);
         let max_slots = u32::from_le_bytes([data[24], data[25], data[26], data[27]]);
 
+        // A region holds one u32 per slot in each of the two arrays: a slot count that the
+        // mapped bytes cannot hold is cut down to the slots that are there
+        let slots_present = (data.len() - PID_TRACKING_HEADER_SIZE) / 8;
+        let max_slots = max_slots.min(u32::try_from(slots_present).unwrap_or(u32::MAX));
+
         let slot_count = max_slots as usize;
         let pids_start = PID_TRACKING_HEADER_SIZE;
         let modes_start = pids_start + slot_count * 4;
